@@ -220,7 +220,7 @@ def c08_case(args):
     assume = W_.distinct_decls(decls)
     feats = {"desc": tpl["name"], "template": tpl["name"]}
     cov = Coverage()
-    eng = Engine(timeout_ms=30000 if tier == "quick" else 300000, max_paths=20000)
+    eng = Engine(timeout_ms=240000 if tier == "quick" else 600000, max_paths=20000)
 
     def mk(m):
         names = {k: a.realize(m) for k, a in W_.atoms.items()}
@@ -533,7 +533,7 @@ def c20_case(args):
     cov = Coverage()
     decl_names = ["N1", "N2", "N3", "N4", "N5", "N6", "N7", "N8"]
     outs = {}
-    eng = Engine(timeout_ms=30000 if tier == "quick" else 300000, max_paths=20000)
+    eng = Engine(timeout_ms=240000 if tier == "quick" else 600000, max_paths=20000)
     Wd = World(split_files)
     Wd.prescan()
     # the single-file text goes into the same world (same atoms) under another root file name
@@ -654,7 +654,7 @@ def c20_error_case(args):
     Wd.prescan()
     assume = Wd.distinct_decls([d for d in Wd.atoms if d.startswith("N")])
     cov = Coverage()
-    eng = Engine(timeout_ms=30000, max_paths=2000)
+    eng = Engine(timeout_ms=240000, max_paths=2000)
 
     def mk(m):
         names = {k: a.realize(m) for k, a in Wd.atoms.items()}
